@@ -404,7 +404,7 @@ def _remove_task(opname, types):
                            "key and attributes; the node and all its index entries disappear; nothing else changes")
 
 
-def tasks():
+def tasks(tier="quick"):
     T = []
     for t in "epc":
         for kind in ("new", "existing", "gap"):
@@ -415,5 +415,8 @@ def tasks():
         for types in tl:
             T.append(_add_task(opname, types))
             T.append(_insert_task(opname, types))
-            T.append(_remove_task(opname, types))
+            # removal of a 3-wire node enumerates all 203 coincidence patterns of its six neighbours (~2 min per type mix):
+            # thorough tier only; the quick tier covers 1-, 2-wire and quantum+classical (MeasurementZ) nodes
+            if opname != "ClassicalCNOT" or tier == "thorough":
+                T.append(_remove_task(opname, types))
     return T
